@@ -110,6 +110,9 @@ class Attract(Mode):
         """
         if ev_result is False:
             self.debug_log("Game start was denied")
+        elif not self.active or self.stopping:
+            # e.g. service mode was entered while the request was being processed
+            self.debug_log("Attract mode was stopped meanwhile. Not starting a game")
         else:  # else because we want to start on True *or* None
             self.debug_log("Let's start a game!!")
             self.machine.events.post('game_start',
